@@ -321,10 +321,27 @@ def norm_cell(c):
     return None if c == "" or c.lower() == "none" else c
 
 
+def tt_rows(tt):
+    """rows for the Lean driver: '' / None / none cells as null; the event cell keeps its spelling, with a flag"""
+    return [[row[0], row[1], norm_cell(row[2]), norm_cell(row[3]), norm_cell(row[4]), norm_cell(row[1]) is None] for row in tt]
+
+
+def with_eventless_rows(r, model):
+    """the model with one to three rows whose event cell is '' / None / none (completion transitions: such a row registers
+    its states, action and guard with the model, belongs to no event and contributes nothing to the per-event text)"""
+    m = dict(model, tt=[list(row) for row in model["tt"]])
+    states = [row[0] for row in m["tt"]] + ["State" + "Solo"]
+    for _ in range(r.randint(1, 3)):
+        row = [r.choice(states), r.choice(["", "None", "none"]), r.choice(states + ["None", ""]),
+               r.choice(["None", "", "OnIdle", m["tt"][0][3]]), r.choice(["None", "", "IsIdle", m["tt"][0][4]])]
+        m["tt"].insert(r.randrange(len(m["tt"]) + 1), row)
+    return m
+
+
 def engine_request(model, files_lines, itf, env, usertags):
     return dict(cmd="engine", smname=model["name"], ns=model["ns"], author="auth", group="grp", brief="brief", dclspc=model.get("dclspc", ""),
                 pyif="Transition Table", enums="",
-                tt=[[row[0], row[1], norm_cell(row[2]), norm_cell(row[3]), norm_cell(row[4])] for row in model["tt"]],
+                tt=tt_rows(model["tt"]),
                 structNames=list(itf.StructNames()), protoNames=list(itf.ProtocolStructNames()), msgNames=list(itf.MessageNames()),
                 userTags=[[k, py_str(v), isinstance(v, str)] for k, v in usertags.items()],
                 files=[[n, ls] for n, ls in files_lines], env=env)
@@ -333,7 +350,7 @@ def engine_request(model, files_lines, itf, env, usertags):
 def spec_request(model, tpl, itf, usertags):
     return dict(cmd="spec", smname=model["name"], ns=model["ns"], author="auth", group="grp", brief="brief", dclspc=model.get("dclspc", ""),
                 pyif="Transition Table", enums="",
-                tt=[[row[0], row[1], norm_cell(row[2]), norm_cell(row[3]), norm_cell(row[4])] for row in model["tt"]],
+                tt=tt_rows(model["tt"]),
                 structNames=list(itf.StructNames()), protoNames=list(itf.ProtocolStructNames()), msgNames=list(itf.MessageNames()),
                 userTags=[[k, py_str(v)] for k, v in usertags.items()],
                 files=[dict(name=f["name"], items=f["items"]) for f in tpl])
